@@ -27,6 +27,19 @@ LEVELS = {
 }
 
 
+_TOKENS = iter(range(1, 10 ** 9))
+
+
+def model_token(model):
+    """A cache key for results computed on `model`: unique per model object for the life of the
+    process (id() is not: it is reused after garbage collection, and the self-test runs many
+    source trees in one worker process)."""
+    t = model.__dict__.get("_sa_token")
+    if t is None:
+        t = model.__dict__["_sa_token"] = next(_TOKENS)
+    return t
+
+
 class AnalysisError(Exception):
     """The checker cannot decide: vanished anchor, unsupported idiom, floor."""
 
